@@ -302,7 +302,7 @@ pub fn syntax_to_semantic<T: SourceTrait>(
 fn stmt_to_asg_stmt(stmt: synast::Stmt, context: &mut Context) -> Option<asg::Stmt> {
     match stmt {
         synast::Stmt::IfStmt(if_stmt) => {
-            let condition = expr_to_asg_texpr(if_stmt.condition(), context);
+            let condition = required_expr_to_asg_texpr(if_stmt.condition(), &if_stmt, context);
             with_scope!(context,  ScopeType::Local,
                         let then_branch = match (if_stmt.then_branch_block(), if_stmt.then_branch_stmt()) {
                             // `if (c);` has no body at all
@@ -313,11 +313,12 @@ fn stmt_to_asg_stmt(stmt: synast::Stmt, context: &mut Context) -> Option<asg::St
             with_scope!(context,  ScopeType::Local,
                         let else_branch = if_stmt.false_body_block_or_stmt().map(|bors| block_or_stmt_to_asg_type(bors, context));
             );
-            Some(asg::If::new(condition.unwrap(), then_branch, else_branch).to_stmt())
+            Some(asg::If::new(condition, then_branch, else_branch).to_stmt())
         }
 
         synast::Stmt::WhileStmt(while_stmt) => {
-            let condition = expr_to_asg_texpr(while_stmt.condition(), context);
+            let condition =
+                required_expr_to_asg_texpr(while_stmt.condition(), &while_stmt, context);
             with_scope!(context,  ScopeType::Local,
                         let loop_body = match (while_stmt.body(), while_stmt.stmt()) {
                             // `while (c);` has no body at all
@@ -325,7 +326,7 @@ fn stmt_to_asg_stmt(stmt: synast::Stmt, context: &mut Context) -> Option<asg::St
                             _ => block_or_stmt_to_asg_type(while_stmt.block_or_stmt(), context),
                         };
             );
-            Some(asg::While::new(condition.unwrap(), loop_body).to_stmt())
+            Some(asg::While::new(condition, loop_body).to_stmt())
         }
 
         synast::Stmt::ForStmt(for_stmt) => {
@@ -340,11 +341,14 @@ fn stmt_to_asg_stmt(stmt: synast::Stmt, context: &mut Context) -> Option<asg::St
                     context,
                 ))
             } else if let Some(expression) = iterable_ast.for_iterable_expr() {
-                asg::ForIterable::Expr(expr_to_asg_texpr(Some(expression), context).unwrap())
+                asg::ForIterable::Expr(required_expr_to_asg_texpr(
+                    Some(expression),
+                    &iterable_ast,
+                    context,
+                ))
             } else {
-                // It would be nice to use an enum on the other side.
-                // This error should be caught before semantic analysis. Eg in validation of the AST
-                unreachable!() // probably is reachable
+                // Neither a set, a range nor a translatable expression, eg. `for int i in () {}`.
+                asg::ForIterable::Expr(required_expr_to_asg_texpr(None, &iterable_ast, context))
             };
             with_scope!(context,  ScopeType::Local,
                         let loop_var_symbol_id = context.new_binding(loop_var.string().as_ref(), &ty, &loop_var);
@@ -360,7 +364,8 @@ fn stmt_to_asg_stmt(stmt: synast::Stmt, context: &mut Context) -> Option<asg::St
         // Note: The outer curlies do not entail a new scope. But the inner curlies do entail a
         // new scope, one for each case.
         synast::Stmt::SwitchCaseStmt(switch_case_stmt) => {
-            let control = expr_to_asg_texpr(switch_case_stmt.control(), context);
+            let control =
+                required_expr_to_asg_texpr(switch_case_stmt.control(), &switch_case_stmt, context);
             let case_exprs = switch_case_stmt.case_exprs().map(|case_expr| {
                 let int_exprs = expression_list_to_asg_texpr(case_expr.expression_list().unwrap(), context);
                 with_scope!(context,  ScopeType::Local,
@@ -371,10 +376,7 @@ fn stmt_to_asg_stmt(stmt: synast::Stmt, context: &mut Context) -> Option<asg::St
             with_scope!(context,  ScopeType::Local,
                         let default_statements = switch_case_stmt.default_block().map(|block| block_expr_to_asg_stmt_list(block, context));
             );
-            Some(
-                asg::SwitchCaseStmt::new(control.unwrap(), case_exprs, default_statements)
-                    .to_stmt(),
-            )
+            Some(asg::SwitchCaseStmt::new(control, case_exprs, default_statements).to_stmt())
         }
 
         synast::Stmt::ClassicalDeclarationStatement(type_decl) => Some(
@@ -525,8 +527,11 @@ fn stmt_to_asg_stmt(stmt: synast::Stmt, context: &mut Context) -> Option<asg::St
 
         synast::Stmt::DelayStmt(delay_stmt) => {
             let gate_operands = qubit_list_to_asg_texpr(delay_stmt.qubit_list(), context);
-            let duration =
-                expr_to_asg_texpr(delay_stmt.designator().unwrap().expr(), context).unwrap();
+            let duration = required_expr_to_asg_texpr(
+                delay_stmt.designator().unwrap().expr(),
+                &delay_stmt,
+                context,
+            );
             if !matches!(duration.get_type(), Type::Duration(_)) {
                 context.insert_error(IncompatibleTypesError, &delay_stmt.designator().unwrap());
             }
@@ -616,9 +621,11 @@ fn expr_stmt_to_asg_stmt(expr_stmt: synast::ExprStmt, context: &mut Context) -> 
                     synast::Modifier::InvModifier(_) => asg::GateModifier::Inv,
 
                     synast::Modifier::PowModifier(pow_mod) => {
-                        let exponent =
-                            paren_expr_to_asg_texpr(pow_mod.paren_expr().unwrap(), context)
-                                .unwrap();
+                        let exponent = required_expr_to_asg_texpr(
+                            pow_mod.paren_expr().and_then(|paren| paren.expr()),
+                            &pow_mod,
+                            context,
+                        );
                         asg::GateModifier::Pow(exponent)
                     }
 
@@ -644,7 +651,7 @@ fn expr_stmt_to_asg_stmt(expr_stmt: synast::ExprStmt, context: &mut Context) -> 
                 gate_call_expr_to_asg_stmt(gate_call, modifiers, context)
             } else {
                 let gphase = mod_gate_call.g_phase_call_expr().unwrap();
-                let arg = expr_to_asg_texpr(gphase.arg(), context).unwrap();
+                let arg = required_expr_to_asg_texpr(gphase.arg(), &gphase, context);
                 Some(asg::Stmt::ModifiedGPhaseCall(asg::ModifiedGPhaseCall::new(
                     arg, modifiers,
                 )))
@@ -652,7 +659,7 @@ fn expr_stmt_to_asg_stmt(expr_stmt: synast::ExprStmt, context: &mut Context) -> 
         }
 
         Some(GPhaseCallExpr(gphase)) => {
-            let arg = expr_to_asg_texpr(gphase.arg(), context).unwrap();
+            let arg = required_expr_to_asg_texpr(gphase.arg(), &gphase, context);
             Some(asg::Stmt::GPhaseCall(asg::GPhaseCall::new(arg)))
         }
 
@@ -671,11 +678,35 @@ fn not_impl_expr<T: synast::AstNode>(context: &mut Context, node: &T) -> Option<
     Some(asg::TExpr::new(asg::Expr::NullExpr, Type::Undefined))
 }
 
+// Translate an expression that the enclosing construct requires. The parser accepts
+// forms that have no representation in the typed AST where an expression is expected, in
+// particular the empty tuple `()` (eg. `if (()) {}`, `float(())`, `[():1]`). These are reported
+// as `NotImplementedError` on the enclosing node `parent` instead of unwrapping `None`.
+fn required_expr_to_asg_texpr<T: synast::AstNode>(
+    expr: Option<synast::Expr>,
+    parent: &T,
+    context: &mut Context,
+) -> asg::TExpr {
+    match expr_to_asg_texpr(expr, context) {
+        Some(texpr) => texpr,
+        None => {
+            context.insert_error(NotImplementedError, parent);
+            asg::TExpr::new(asg::Expr::NullExpr, Type::Undefined)
+        }
+    }
+}
+
 fn paren_expr_to_asg_texpr(
     paren_expr: synast::ParenExpr,
     context: &mut Context,
 ) -> Option<asg::TExpr> {
-    expr_to_asg_texpr(paren_expr.expr(), context)
+    // The parenthesized expression may itself be one that the typed AST cannot represent,
+    // eg. `(())`.
+    Some(required_expr_to_asg_texpr(
+        paren_expr.expr(),
+        &paren_expr,
+        context,
+    ))
 }
 
 fn negative_float_number_to_asg_type(f: synast::FloatNumber) -> Option<asg::FloatLiteral> {
@@ -912,8 +943,8 @@ fn expr_to_asg_texpr(
 
         synast::Expr::CastExpression(cast) => {
             let typ = scalar_type_to_type(&cast.scalar_type().unwrap(), true, context);
-            let expr = expr_to_asg_texpr(cast.expr(), context);
-            Some(asg::Cast::new(expr.unwrap(), typ).to_texpr())
+            let expr = required_expr_to_asg_texpr(cast.expr(), &cast, context);
+            Some(asg::Cast::new(expr, typ).to_texpr())
         }
 
         synast::Expr::CallExpr(call_expr) => Some(call_expr_to_asg_texpr(call_expr, context)),
@@ -958,8 +989,8 @@ fn range_expression_to_asg_type(
     context: &mut Context,
 ) -> asg::RangeExpression {
     let (start, step, stop) = range_expr.start_step_stop();
-    let start = expr_to_asg_texpr(start, context).unwrap();
-    let stop = expr_to_asg_texpr(stop, context).unwrap();
+    let start = required_expr_to_asg_texpr(start, &range_expr, context);
+    let stop = required_expr_to_asg_texpr(stop, &range_expr, context);
     let step = expr_to_asg_texpr(step, context);
     asg::RangeExpression::new(start, step, stop)
 }
@@ -1492,7 +1523,8 @@ fn assignment_stmt_to_asg_stmt(
                                               // LHS is an identifier
     if let Some(name) = &nameb {
         let name_str = name.string();
-        let mut expr = expr_to_asg_texpr(assignment_stmt.rhs(), context).unwrap(); // rhs of `=` operator
+        // rhs of `=` operator
+        let mut expr = required_expr_to_asg_texpr(assignment_stmt.rhs(), assignment_stmt, context);
 
         let (symbol_id, symbol_type) = context.lookup_symbol(name_str.as_str(), name).as_tuple();
         let symbol_ok = symbol_id.is_ok();
@@ -1562,7 +1594,8 @@ fn assignment_stmt_to_asg_stmt(
         //     }
         // }
     }
-    let expr = expr_to_asg_texpr(assignment_stmt.rhs(), context).unwrap(); // rhs of `=` operator
+    // rhs of `=` operator
+    let expr = required_expr_to_asg_texpr(assignment_stmt.rhs(), assignment_stmt, context);
     let lvalue = asg::LValue::IndexedIdentifier(indexed_identifier);
     Some(asg::Assignment::new(lvalue, expr).to_stmt())
 }
